@@ -279,7 +279,8 @@ Definition disjunction_with_constant_to_default (ss : schemas) : res schemas :=
    The suggested name of an enum found in a struct field is always
    UpperCamelCase(object name) + UpperCamelCase(field name), whatever the nesting depth.
    The reference that replaces the enum points into the package of the SCHEMA, the new object
-   carries the package of the object's SelfRef.  Default and hints of the enum type are lost. *)
+   carries the package of the object's SelfRef.  The Default of the enum type moves to the reference
+   (ast.Default is only applied when it is not nil); its hints are lost. *)
 Fixpoint aete_type (spkg pkg cur suggested : string) (t : ty) : ty * list object :=
   match t with
   | TArray a v => let '(v', n) := aete_type spkg pkg cur suggested v in (TArray a v', n)
@@ -300,7 +301,7 @@ Fixpoint aete_type (spkg pkg cur suggested : string) (t : ty) : ty * list object
       (TStruct a dh fs', n)
   | TEnum a vs =>
       let name := upper_camel_case suggested in
-      (TRef (mk_attrs (nullable a) DNil []) spkg name,
+      (TRef (mk_attrs (nullable a) (dflt a) []) spkg name,
        [new_object pkg name
           (TEnum A0 (map (fun v => mkEnumVal (ev_type v) (upper_camel_case (ev_name v)) (ev_value v)) vs))])
   | TDisj a d =>
